@@ -189,6 +189,8 @@ def pair_flow(ctx):
     if len(dcalls) != 1 or len(dcalls[0].args) != 2:
         raise AnalysisError("match_storms: call of disambiguate_matching(rain, jump) not found")
     dargs = [a.id if isinstance(a, ast.Name) else None for a in dcalls[0].args]
+    if None in dargs or set(dargs) != {lists["rain"], lists["jump"]}:
+        raise AnalysisError("match_storms: arguments of disambiguate_matching are not the two lists of candidate pairs")
     ok = dargs == [lists["rain"], lists["jump"]]
     checks.append((ok, dcalls[0], ms, "disambiguate_matching(%s) receives (rain pairs, jump pairs)" % ", ".join(map(str, dargs))))
     dst = enclosing_stmt(dcalls[0])
@@ -199,6 +201,8 @@ def pair_flow(ctx):
     if len(rets) != 1 or not (isinstance(rets[0].value, ast.Tuple) and len(rets[0].value.elts) == 2):
         raise AnalysisError("match_storms: expected `return (rain_intervals, head_intervals)`")
     rnames = [e.id if isinstance(e, ast.Name) else None for e in rets[0].value.elts]
+    if None in rnames or set(rnames) != set(dres):
+        raise AnalysisError("match_storms: the returned pair is not the pair of disambiguated lists")
     checks.append((rnames == dres, rets[0], ms, "match_storms returns %s = the disambiguated (rain, jump) lists in that order" % rnames))
     # ---- disambiguate_matching: returns (rain pairs, jump pairs) keyed by their starts
     dp = dm.params
@@ -223,10 +227,13 @@ def pair_flow(ctx):
                 and isinstance(n.func.value, ast.Name) and isinstance(n.args[0], ast.Tuple) and len(n.args[0].elts) == 2:
             a, b = n.args[0].elts
             if isinstance(a, ast.Name) and isinstance(b, ast.Subscript) and isinstance(b.value, ast.Name) and b.value.id in stops \
-                    and isinstance(b.slice, ast.Name) and b.slice.id == a.id:
-                side_of_list[n.func.value.id] = stops[b.value.id]
+                    and isinstance(b.slice, ast.Name):
+                # (x, STOPS[y]) with y != x pairs a start with another interval's stop
+                side_of_list[n.func.value.id] = stops[b.value.id] if b.slice.id == a.id else "a stop looked up under another start"
     want = [dp[0], dp[1]]
     got = [side_of_list.get(x) for x in out_lists]
+    if None in got:
+        raise AnalysisError("disambiguate_matching: the returned lists are not rebuilt as (start, STOPS[start]) from {start: stop} tables of the parameters")
     checks.append((got == want, drets[0], dm,
                    "disambiguate_matching returns lists rebuilt as (start, stop-of-that-start) from parameters %s" % got))
     # ---- match_all_storms: unpack
